@@ -127,6 +127,7 @@ func runC14(r *simrt.Run, tier Tier) Outcome {
 		head   string
 		op     string
 		d1, d2 int64
+		abs    bool // the window is written with two timestamps instead of two durations
 	}
 	var ops []opRule
 	nOps := 1 + r.Choose(2, "c14.nops")
@@ -134,6 +135,16 @@ func runC14(r *simrt.Run, tier Tier) Outcome {
 		d1 := int64(r.Choose(7, "c14.d1"))
 		d2 := d1 + int64(r.Choose(int(7-d1), "c14.d2"))
 		o := opRule{head: fmt.Sprintf("d%d", k), op: []string{"<-", "[-", "<+", "[+"}[r.Choose(4, "c14.op")], d1: d1, d2: d2}
+		if r.OneIn(5, "c14.op.abs") {
+			// the documentation allows ISO timestamps in an operator's interval
+			o.abs = true
+			o.d1 = int64(r.Choose(36, "c14.op.t1"))
+			o.d2 = o.d1 + int64(r.Choose(8, "c14.op.tlen"))
+			ops = append(ops, o)
+			fmt.Fprintf(&src, "%s(X) :- %s[%s, %s] ev(X).\n", o.head, o.op, c14TS(o.d1), c14TS(o.d2))
+			r.Probe("operator-window-with-timestamps")
+			continue
+		}
 		ops = append(ops, o)
 		fmt.Fprintf(&src, "%s(X) :- %s[%ds, %ds] ev(X).\n", o.head, o.op, o.d1, o.d2)
 	}
@@ -328,7 +339,9 @@ func runC14(r *simrt.Run, tier Tier) Outcome {
 	for _, o := range ops {
 		var w iv
 		d1, d2 := o.d1*int64(time.Second), o.d2*int64(time.Second)
-		if o.op == "<-" || o.op == "[-" {
+		if o.abs {
+			w = iv{c14Nanos(o.d1), c14Nanos(o.d2)}
+		} else if o.op == "<-" || o.op == "[-" {
 			w = iv{nowNs - d2, nowNs - d1}
 		} else {
 			w = iv{nowNs + d1, nowNs + d2}
